@@ -282,7 +282,11 @@ class UTPM(Ring, RawAlgorithmsMixIn):
         # print 'xbar =', xbar
         # print 'ybar =', ybar
         # a constant array on the right hand side has no adjoint (xbar is None)
-        if xbar is not None:
+        if isinstance(xbar, UTPM):
+            # x may have been broadcast into y[sl]: sum over the broadcast axes
+            xbar2, tmp2 = cls.broadcast(xbar, ybar[sl])
+            workaround_strides_function(xbar2, tmp2, operator.iadd)
+        elif xbar is not None:
             xbar += ybar[sl]
         ybar[sl].data[...] = 0.
         # print 'funcargs=',funcargs
